@@ -219,25 +219,39 @@ def send_loop(rep, u):
     h = hdr[0]
     body_start = [s for s in fn.blocks[h].rsucc() if s in loops[h]][0]
     paths = r_path.enum_paths(fn, body_start, stop_blocks=[h])
-    sums = set()
+    # counters by role, not by spelling: 'err' is what the function returns; 'failed' is the other counter bumped on the
+    # paths that bump 'err'; 'sent' is the counter bumped on the remaining paths that call tpt_msg_send
+    rets_k = {key(core.strip_casts(r.get("e"))) for pos, r in fn.returns() if r.get("e") is not None}
+    per_path = []
     for p in paths:
-        cnt = {"sent": 0, "failed": 0, "err": 0, "send": 0}
+        incs = {}
+        nsend = 0
         for ev in r_path.events(fn, p):
             if ev[0] != "elem":
                 continue
             for n, ps in walk(ev[2]):
                 if n.get("k") == "un" and n["op"] in ("post++", "pre++", "post--", "pre--"):
-                    k = key(n["e"])
-                    d = 1 if "++" in n["op"] else -1
-                    if "send_msg_cnt" in k:
-                        cnt["sent"] += d
-                    elif "error_cnt" in k:
-                        cnt["failed"] += d
-                    elif "err_cnt" in k:
-                        cnt["err"] += d
+                    k = key(core.strip_casts(n["e"]))
+                    incs[k] = incs.get(k, 0) + (1 if "++" in n["op"] else -1)
                 if n.get("k") == "call" and n.get("fn") == "tpt_msg_send":
-                    cnt["send"] += 1
-        sums.add((cnt["send"], cnt["sent"], cnt["failed"], cnt["err"]))
+                    nsend += 1
+        per_path.append((nsend, {k: v for k, v in incs.items() if v != 0}))
+    loopvar = {k for _, incs in per_path for k in incs if all(k in i2 for _, i2 in per_path)}   # the loop index, bumped on every path
+    errk = next((k for k in rets_k if any(k in incs for _, incs in per_path)), None)
+    failk = None
+    sentk = None
+    for nsend, incs in per_path:
+        others = [k for k in incs if k != errk and k not in loopvar]
+        if errk in incs and others:
+            failk = others[0]
+    for nsend, incs in per_path:
+        others = [k for k in incs if k not in (errk, failk) and k not in loopvar]
+        if nsend and errk not in incs and others:
+            sentk = others[0]
+    sums = set()
+    for nsend, incs in per_path:
+        extra = [k for k in incs if k not in (errk, failk, sentk) and k not in loopvar]
+        sums.add((nsend, incs.get(sentk, 0), incs.get(failk, 0), incs.get(errk, 0)) + ((tuple(extra),) if extra else ()))
     want = {(0, 0, 0, 0), (1, 1, 0, 0), (1, 0, 1, 1)}
     desc = "per target thread exactly one of: skipped (no counters), sent (+1 sent), failed (+1 failed, +1 returned error count)"
     if sums == want:
@@ -246,7 +260,7 @@ def send_loop(rep, u):
         rep.violated("R-PATH", fn, "send-loop-accounting", desc, "path summaries (sends, sent, failed, err) = %s" % sorted(sums))
     # return value is the error counter
     rets = [r for pos, r in fn.returns()]
-    ok = rets and all("err_cnt" in key(r.get("e")) for r in rets)
+    ok = rets and errk is not None and all(key(core.strip_casts(r.get("e"))) == errk for r in rets)
     (rep.proved if ok else rep.violated)("R-PATH", fn, "returns-failure-count", "the function returns the number of failed sends")
     return len(paths)
 
